@@ -197,9 +197,62 @@ example (s : ℝ) (hs : 0 < s) (f : Field) (dim pol : V3 ℝ) (hx : 0 < dim.x) (
   apply V3.ext' <;> simp [vs]
 
 -- … and a Dipole (degree 3) away from its own position; at the position itself both sides are Lean's totalised values
+-- (audit2: NOT an instance of `hF`, which quantifies over every `x`; `bhjmDipole_homogeneous_all` below is)
 example (s : ℝ) (hs : 0 < s) (f : Field) (m x : V3 ℝ) (hx : Kern.norm x ≠ 0) :
     bhjmDipole f m (vs s x) = vs (1 / s ^ 3) (bhjmDipole f m x) :=
   C12.bhjmDipole_homogeneous s hs f m x hx
+
+/-! audit2: `hF` asks for homogeneity at EVERY point `x` (also points no observer visits); the kernel theorems of Props/C12 that carry a side
+condition on `x` (`bhjmDipole_homogeneous`: `norm x ≠ 0`) do not discharge it as they stand.  Below: the Dipole for every `x` (at its own
+position both sides are Lean's totalised `0`), two more kernels for every `x` (Sphere degree 0, current segment degree 1 — masks included), and
+one complete instance of `arrangement_unit_invariant` (ALL hypotheses: rotation carrier `M3 ℝ` through `m3_real_linear`, a Sphere as source). -/
+
+theorem bhjmDipole_homogeneous_all (l : ℝ) (hl : 0 < l) (f : Field) (m x : V3 ℝ) :
+    bhjmDipole f m (vs l x) = vs (1 / l ^ 3) (bhjmDipole f m x) := by
+  by_cases hx : Kern.norm x ≠ 0
+  · exact C12.bhjmDipole_homogeneous l hl f m x hx
+  · have hx0 : Kern.norm x = 0 := not_not.mp hx
+    have hn : Kern.norm (vs l x) = 0 := by rw [C12.norm_scale l hl x, hx0, mul_zero]
+    have h1 : dipoleH m (vs l x) = (⟨0, 0, 0⟩ : V3 ℝ) := by
+      simp only [dipoleH, hn]; apply V3.ext' <;> simp [vd, n]
+    have h2 : dipoleH m x = (⟨0, 0, 0⟩ : V3 ℝ) := by
+      simp only [dipoleH, hx0]; apply V3.ext' <;> simp [vd, n]
+    cases f <;> simp only [bhjmDipole, h1, h2] <;> apply V3.ext' <;> simp [vs, zero3, n]
+
+example (s : ℝ) (hs : 0 < s) (f : Field) (dia : ℝ) (pol : V3 ℝ) (i : Nat) :
+    let l : LeafSel (V3 ℝ) (V3 ℝ) := ⟨i, bhjmSphere f dia pol, bhjmSphere f (s * dia) pol⟩
+    ∀ x, l.F' (vs s x) = vs (1 / s ^ 0) (l.F x) := by
+  intro l x
+  show bhjmSphere f (s * dia) pol (vs s x) = vs (1 / s ^ 0) (bhjmSphere f dia pol x)
+  rw [C12.sphere_scale_invariant_all s hs f dia pol x]
+  apply V3.ext' <;> simp [vs]
+
+example (s : ℝ) (hs : 0 < s) (f : Field) (cur : ℝ) (p1 p2 : V3 ℝ) (i : Nat) :
+    let l : LeafSel (V3 ℝ) (V3 ℝ) := ⟨i, bhjmSegment f cur p1 p2, bhjmSegment f cur (vs s p1) (vs s p2)⟩
+    ∀ x, l.F' (vs s x) = vs (1 / s ^ 1) (l.F x) := by
+  intro l x
+  show bhjmSegment f cur (vs s p1) (vs s p2) (vs s x) = vs (1 / s ^ 1) (bhjmSegment f cur p1 p2 x)
+  rw [C12.bhjmSegment_homogeneous s hs f cur p1 p2 x, pow_one]
+
+example {α : Type} [Kern.Num α] [BEq (M3 ℝ)] (s : ℝ) (hs : 0 < s) (sc : Scipy α (M3 ℝ)) (ops : List (HOp α (M3 ℝ) (V3 ℝ)))
+    (t : Node (M3 ℝ) (V3 ℝ)) (f : Field) (dia : ℝ) (pol : V3 ℝ) (i : Nat) (sens : List (SensSel (V3 ℝ))) (sumup squeeze : Bool) (agg : Agg) :
+    let srcs : List (SrcSel (V3 ℝ) (V3 ℝ)) := [.one ⟨i, bhjmSphere f dia pol, bhjmSphere f (s * dia) pol⟩]
+    getBH flipR minR maxR
+        (srcs.map (SrcSel.entry' (run sc (ops.map (scaleOp (vs s))) (scaleState (vs s) t)).objs))
+        (sens.map fun k => (k.mapV (vs s)).sens (run sc (ops.map (scaleOp (vs s))) (scaleState (vs s) t)).objs)
+        sumup squeeze agg =
+      (getBH flipR minR maxR (srcs.map (SrcSel.entry (run sc ops t).objs))
+        (sens.map fun k => k.sens (run sc ops t).objs) sumup squeeze agg).map (Out.mapV (vs (1 / s ^ 0))) := by
+  intro srcs
+  apply arrangement_unit_invariant m3_real_linear s hs 0 sc ops t srcs sens _ sumup squeeze agg
+  intro a ha l hl x
+  simp only [srcs, List.mem_singleton] at ha
+  subst ha
+  simp only [SrcSel.leafSels, List.mem_singleton] at hl
+  subst hl
+  show bhjmSphere f (s * dia) pol (vs s x) = vs (1 / s ^ 0) (bhjmSphere f dia pol x)
+  rw [C12.sphere_scale_invariant_all s hs f dia pol x]
+  apply V3.ext' <;> simp [vs]
 
 /-! ### (4) regenerated guard: absolute-length constructs in the pose / marshalling sources -/
 
